@@ -14,7 +14,16 @@ from cv.core import VERIF, Check  # noqa: E402
 from cayleypy import CayleyGraph, find_path  # noqa: E402
 from cayleypy.algo import MeetInTheMiddle  # noqa: E402
 
-THEOREMS = []
+THEOREMS = [
+    "Cv.Session.history_independent",
+    "Cv.Session.history_independent_root",
+    "Cv.Session.history_independent_inv",
+    "Cv.Session.invariant_kept",
+    "Cv.Session.imm_stable",
+    "Cv.Session.copies_share_hashing",
+    "Cv.Session.all_share_root",
+    "Cv.Session.inverted_copy_cached",
+]
 
 
 def canon(x):
@@ -193,6 +202,13 @@ def run_case(ck: Check, case: dict):
         if st != "ok":
             ck.count("op-raised-on-both (out of domain)")
             continue
+        if op[0] == "find_path":
+            # the cache key the model predicts (Session.Limits.key) is the one the object holding the ball carries
+            holder = cur if cur.definition.generators_inverse_closed else cur.with_inverted_generators
+            key = getattr(holder, "_bfs_result_for_find_path_key", None)
+            mk = ck.driver().ask(f"session.key {op[2].get('max_layer_size_to_explore', -1)} {op[2].get('max_diameter', -1)}")
+            if key is None or " ".join(map(str, key)) != mk:
+                ck.correspondence_break("find_path cache key differs from the session model's Limits.key", {"op": op, "impl": key, "model": mk})
         a, b = out, out2
         if not seeded or (cur is not origin and not cur.hasher.is_identity and cur.hasher is not None and not seeded):
             a, b = strip_hashes(a), strip_hashes(b)
